@@ -57,3 +57,119 @@ Section Handler.
     destruct (_ && _); [right; eexists; split; reflexivity|now left].
   Qed.
 End Handler.
+
+Require Import Sorted Permutation.
+
+Section Events.
+  Context {F : Type} (O : Ops F).
+
+  (* ---------------- C10: what a terminal event leaves behind ---------------- *)
+  (* if the event pass reports a terminal event, the newest sample is that event's (time, state),
+     and it is one of the events detected in this step *)
+  Lemma process_events_terminal C fwd xold interp evs : forall s s',
+    process_events O C fwd xold interp evs s = (s', true) ->
+    exists te i ye, In (te, i, ye) evs /\
+                    (exists tt, hs_t s' = te :: tt) /\ (exists yy, hs_y s' = ye :: yy).
+  Proof.
+    induction evs as [|[[te i] ye] rest IH]; intros s s' H; [discriminate|].
+    cbn [process_events] in H.
+    destruct (match ec_terminal (nth i (hc_evcfg C) (mkEC DirAll None)) with
+              | Some limit => _ | None => false end) eqn:E.
+    - exists te, i, ye. split; [now left|].
+      destruct (hc_t_eval C) as [tev|].
+      + destruct (scan_terminal _ _ _ _ _ _ _ _ _ _) as [[nx t1] y1]. inversion H; subst. cbn. split; eexists; reflexivity.
+      + inversion H; subst. cbn. split; eexists; reflexivity.
+    - apply IH in H. destruct H as [te' [i' [ye' [Hin Hrest]]]]. exists te', i', ye'. split; [now right|exact Hrest].
+  Qed.
+
+  (* ---------------- C08: consistency of a reported event ---------------- *)
+  Theorem locate_event_consistent C i xold x yold y gp gc sg :
+    let '(te, ye, pts, conv) := locate_event O C i xold x yold y gp gc sg in
+    (te = xold /\ ye = yold) \/ (te = x /\ ye = y) \/ ye = interp_of O C (length y) sg te.
+  Proof.
+    unfold locate_event.
+    destruct (leb O (abs O gp) _); [now left|].
+    destruct (leb O (abs O gc) _); [right; now left|].
+    destruct (brent_loop _ _ _ _ _) as [[b pts] conv]. right. right.
+    unfold interp_of. destruct sg as [[[cont xo] h]|]; reflexivity.
+  Qed.
+
+  (* ---------------- C08: events of one step are processed in the order of integration ---------------- *)
+  Variable before : F -> F -> bool.
+  Definition ev_le (a b : F * nat * list F) : Prop :=
+    before (fst (fst a)) (fst (fst b)) = true \/ before (fst (fst b)) (fst (fst a)) = false.
+
+  Lemma insert_ev_hd a e l :
+    HdRel ev_le a l -> ev_le a e -> HdRel ev_le a (insert_ev before e l).
+  Proof.
+    intros Hl He. destruct l as [|e' r]; simpl; [constructor; exact He|].
+    destruct (_ || _); constructor; [inversion Hl; assumption|exact He].
+  Qed.
+
+  Lemma insert_ev_sorted e l : Sorted ev_le l -> Sorted ev_le (insert_ev before e l).
+  Proof.
+    induction l as [|e' r IH]; intros Hs; simpl; [repeat constructor|].
+    inversion Hs as [|? ? Hr Hh]; subst.
+    destruct (before (fst (fst e')) (fst (fst e)) || negb (before (fst (fst e)) (fst (fst e')))) eqn:E.
+    - constructor; [apply IH; exact Hr|]. apply insert_ev_hd; [exact Hh|].
+      unfold ev_le. apply orb_true_iff in E. destruct E as [E|E]; [now left|right].
+      now apply negb_true_iff in E.
+    - constructor; [exact Hs|]. constructor. unfold ev_le.
+      apply orb_false_iff in E. destruct E as [E1 E2]. apply negb_false_iff in E2. now left.
+  Qed.
+
+  Lemma insert_ev_perm e l : Permutation (e :: l) (insert_ev before e l).
+  Proof.
+    induction l as [|e' r IH]; simpl; [reflexivity|].
+    destruct (_ || _); [|reflexivity].
+    eapply perm_trans; [apply perm_swap|]. now constructor.
+  Qed.
+
+  Theorem sort_ev_sorted l : Sorted ev_le (sort_ev before l) /\ Permutation l (sort_ev before l).
+  Proof.
+    unfold sort_ev.
+    assert (H : forall acc, Sorted ev_le acc ->
+                Sorted ev_le (fold_left (fun a e => insert_ev before e a) l acc) /\
+                Permutation (l ++ acc) (fold_left (fun a e => insert_ev before e a) l acc)).
+    { induction l as [|e r IH]; intros acc Ha; simpl; [split; [exact Ha|reflexivity]|].
+      destruct (IH (insert_ev before e acc) (insert_ev_sorted e acc Ha)) as [H1 H2]. split; [exact H1|].
+      eapply perm_trans; [|exact H2]. eapply perm_trans; [apply Permutation_middle|].
+      apply Permutation_app_head. apply insert_ev_perm. }
+    destruct (H (@nil (F * nat * list F)) (Sorted_nil _)) as [H1 H2]. split; [exact H1|]. now rewrite app_nil_r in H2.
+  Qed.
+End Events.
+
+(* ---------------- C05: the t_eval scan of one accepted step ---------------- *)
+Section Scan.
+  Context {F : Type} (O : Ops F).
+
+  (* the scan consumes a prefix of the remaining requested times: exactly those not beyond the step end
+     (within tol); of these it reports, in order and with the interpolant's value, the ones not before the
+     step start (within tol); it never reorders, invents or drops a requested time inside the step *)
+  Theorem scan_step_spec (fwd : bool) (tol xold x : F) (interp : F -> list F) : forall (te : list F) (i : nat) (t : list F) (ys : list (list F)),
+    let inside (v : F) := if fwd then leb O v (add O x tol) else leb O (sub O x tol) v in
+    let take (v : F) := if fwd then leb O (sub O xold tol) v else leb O v (add O xold tol) in
+    exists k, k <= length te /\
+      Forall (fun v => inside v = true) (firstn k te) /\
+      (match nth_error te k with Some v => inside v = false | None => True end) /\
+      scan_step O fwd tol xold x interp te i t ys =
+        (i + k, rev (filter take (firstn k te)) ++ t, rev (map interp (filter take (firstn k te))) ++ ys).
+  Proof.
+    induction te as [|v r IH]; intros i t ys inside take.
+    - exists 0. simpl. repeat split; auto. now rewrite Nat.add_0_r.
+    - cbn [scan_step]. fold (inside v). fold (take v).
+      destruct (inside v) eqn:Ei.
+      + destruct (take v) eqn:Et.
+        * destruct (IH (S i) (v :: t) (interp v :: ys)) as [k [Hk [Hf [Hn He]]]].
+          exists (S k). cbn [firstn nth_error filter length]. fold (take v). rewrite Et.
+          repeat split; [lia|constructor; assumption|exact Hn|].
+          fold inside in He. fold take in He. rewrite He. cbn [map rev]. rewrite <- !app_assoc. cbn [app].
+          replace (i + S k) with (S i + k) by lia. reflexivity.
+        * destruct (IH (S i) t ys) as [k [Hk [Hf [Hn He]]]].
+          exists (S k). cbn [firstn nth_error filter length]. fold (take v). rewrite Et.
+          repeat split; [lia|constructor; assumption|exact Hn|].
+          fold inside in He. fold take in He. rewrite He.
+          replace (i + S k) with (S i + k) by lia. reflexivity.
+      + exists 0. cbn [firstn nth_error filter map rev app]. repeat split; auto; [lia|]. now rewrite Nat.add_0_r.
+  Qed.
+End Scan.
